@@ -293,6 +293,8 @@ pub struct Ctx {
     pub start: Instant,
     pub infra_errors: Vec<String>,
     pub extra: BTreeMap<String, Value>,
+    /// true only if the property's whole quantified domain (not just sub-universes) was enumerated
+    pub exhaustive_domain: bool,
 }
 
 impl Ctx {
@@ -308,6 +310,7 @@ impl Ctx {
             start: Instant::now(),
             infra_errors: vec![],
             extra: BTreeMap::new(),
+            exhaustive_domain: false,
         }
     }
 
